@@ -126,6 +126,9 @@ def classify(v: dict) -> str | None:
 
 
 SPECIAL = [
+	'class A(object):\n\tpass\nclass B(Base, object):\n\tpass\nclass C(Generic[T], Base):\n\tpass\ndef f() -> None:\n\tclass D(object):\n\t\tpass\n',
+	'x = 1e5\ny = 2E10\nz = 1e-3\nw = 1.5e3\nv = 5.\nu = .25\nt = 0x1F\ns = 1_000\n',
+	'x = a & b ^ c\ny = a ^ b & c\nz = a | b ^ c & d\nw = a ^ b | c\n',
 	'def outer() -> None:\n\tclass Local:\n\t\tdef plain(a: int) -> int:\n\t\t\treturn a\n\t\tdef meth(self) -> None:\n\t\t\tpass\n\t\t@classmethod\n\t\tdef make(cls) -> None:\n\t\t\tpass\n',
 	'class A:\n\tdef __init__(self) -> None:\n\t\tself.a = B()\n\t\tself.a.b = 1\n\t\tself.a.b.c = 2\n\t\tother.x = 3\n\tdef m(self) -> None:\n\t\tself.a = 1\n\t\tself.a.b = 2\n',
 	'x = a / b * c % d\n', 'x = a - b + c - d\n', 'x = a * b / c * d\n',
